@@ -4,14 +4,14 @@ META = {
     "property": "C04",
     "level": "exploration",
     "rule": (
-        "case i of seed s is generated from default_rng([s, i]). Even i: exhaustive 1-d part, "
-        "tuple t=(i//2) mod T of the finite space (L, validity pattern, order, periodic) in the "
-        "fixed order [for L in 1..Lmax: for pattern in 0..2^L-1: for order in (1,2): for "
-        "periodic in (False,True)], Lmax=7 quick / 11 thorough, T=4*(2^(Lmax+1)-2) = 1016 / "
-        "16376; the default case counts (2*T) visit every tuple exactly once; only cell size, "
-        "origin, dimension name, polynomial coefficients and the random data are drawn from the "
-        "rng. Odd i: random 1-4-d meshes, sub-kind (i//2)%3 = open / periodic / with subregions, "
-        "random axis, order, 1-4 components, cell decade 1e-9..1e3, random validity. "
+        "case i of seed s is generated from default_rng([s, i]). i%5 in (0..3): exhaustive 1-d "
+        "part, tuple t = (4*(i//5) + i%5) mod T of the finite space (L, validity pattern, order, "
+        "periodic) in the fixed order [for L in 1..Lmax: for pattern in 0..2^L-1: for order in "
+        "(1,2): for periodic in (False,True)], Lmax=7 quick / 11 thorough, T=4*(2^(Lmax+1)-2) = "
+        "1016 / 16376; the default case counts (5*T/4) visit every tuple exactly once; only cell size, origin, dimension name, polynomial "
+        "coefficients and the random data are drawn from the rng. i%5 == 4: random 1-4-d meshes, "
+        "sub-kind (i//5)%3 = open / periodic / with subregions, random axis, order, 1-4 "
+        "components, cell decade 1e-9..1e3, random validity. "
         "Signature: exhaustive = (L, number of runs, longest run capped at 5, order, periodic, "
         "has_invalid); random = (sub-kind, ndim, axis, n along the axis, nvdim, order, "
         "periodic, has_invalid, has_subregions, decade of the cell). Non-trivial = some run of "
@@ -19,13 +19,13 @@ META = {
     ),
     "exhaustive_part": (
         "all 2^L validity patterns x order {1,2} x {open, periodic} for every line length "
-        "L = 1..7 (quick, 1016 tuples) / 1..11 (thorough, 16376 tuples), one tuple per even "
-        "case index, in lexicographic order (L, pattern bits little-endian = cell index, "
+        "L = 1..7 (quick, 1016 tuples) / 1..11 (thorough, 16376 tuples), one tuple per case "
+        "index with i%5 != 4, in lexicographic order (L, pattern bits little-endian = cell index, "
         "order, periodic); every tuple runs the polynomial-exactness (degrees 0-3 as four "
         "components), short-run/invalid-cell zero, locality, linearity, restrict2valid=False, "
         "metadata and (periodic) all-cyclic-shift / centred-difference oracles"
     ),
-    "cases": {"quick": 2032, "thorough": 32752},
+    "cases": {"quick": 1270, "thorough": 20470},
     "workers": {"quick": 8, "thorough": 16},
     "timeout": {"quick": 600, "thorough": 5400},
     "deciding": [
@@ -408,7 +408,7 @@ def random_nd(ctx, sub):
     rng = ctx.rng
     periodic = sub == 1 or (sub == 2 and rng.random() < 0.4)
     with_sub = sub == 2
-    spec = gen.rand_meshspec(rng, n_max=7 if ctx.thorough else 6, max_cells=700,
+    spec = gen.rand_meshspec(rng, n_max=7 if ctx.thorough else 6, max_cells=700 if ctx.thorough else 400,
                              scale_decades=(-9, 3), dims="default")
     nd = spec.nd
     if periodic or rng.random() < 0.5:
@@ -484,7 +484,8 @@ def random_nd(ctx, sub):
 
 
 def run_case(ctx, i):
-    if i % 2 == 0:
-        exhaustive(ctx, i // 2)
+    # 5 is coprime to the worker counts (8, 16): every shard gets the same mix
+    if i % 5 != 4:
+        exhaustive(ctx, 4 * (i // 5) + i % 5)
     else:
-        random_nd(ctx, (i // 2) % 3)
+        random_nd(ctx, (i // 5) % 3)
